@@ -8,11 +8,15 @@
    Histories are arbitrary lists of updates (reading, epoch, offset, weight,
    math.Pow answer): epochs are unconstrained, i.e. externally caused epoch
    changes may happen at any point.  Hypotheses of the history theorems:
-     nondecreasing us   clock readings do not go backwards (the property's quantifier)
+     epoch_monotone us  readings do not go backwards between two consecutive updates that
+                        report the SAME epoch; across an epoch change (a step of the clock, the
+                        controller's own negative Step included) they are unconstrained
      upd_ok u           the offset is an int64 and the math.Pow oracle answer lies in [0,1]
-   Clauses about the size of a slew additionally need the elapsed time since the
-   previous update to be below 2^32 s (max_gap_ns); beyond 9223372036 s the real
-   code overflows int64(ceil(dt)*1e9) -- see C19_adjust_sane and the report. *)
+     gaps_below_wrap us (C19_oracle_holds only) consecutive updates of one epoch are at most
+                        9223372036 s apart; beyond that int64(ceil(dt)*1e9) wraps and the
+                        duration clause is FALSE of the code: C19_duration_positive_refuted.
+   The slew/duration clauses are exact integer statements below 2^32 s and carry the
+   float64 rounding slack (1024 ns, 1 ns) from 2^32 s up to the wrap: C19_adjust_sane. *)
 From Coq Require Import ZArith Reals List Bool.
 From Flocq Require Import Core BinarySingleNaN.
 From ST Require Import Base.Ints Base.F64 Model.Pll Proofs.PllFloat Proofs.PllProofs.
@@ -28,7 +32,7 @@ Open Scope Z_scope.
    with weight > 3; afterwards never a Step, at most one Adjust per update with
    sane arguments, and once tracking an Adjust at every later reading. *)
 Theorem C19_oracle_holds : forall us,
-  nondecreasing us -> Forall upd_ok us -> C19_ok (pll_run pll_init us) = true.
+  epoch_monotone us -> gaps_below_wrap us -> Forall upd_ok us -> C19_ok (pll_run pll_init us) = true.
 Proof. exact oracle_holds. Qed.
 Print Assumptions C19_oracle_holds.
 
@@ -80,29 +84,43 @@ Theorem C19_epoch_restarts : forall s u, p_epoch s <> u_epoch u ->
 Proof. exact epoch_change_restarts. Qed.
 Print Assumptions C19_epoch_restarts.
 
-(* no panic on any history with non-decreasing readings *)
+(* no panic on any history whose readings are non-decreasing within each epoch *)
 Theorem C19_no_panic : forall us u,
-  nondecreasing (us ++ [u]) -> Forall upd_ok (us ++ [u]) ->
+  epoch_monotone (us ++ [u]) -> Forall upd_ok (us ++ [u]) ->
   ~ In EPanic (events (pll_do (pll_final pll_init us) u)).
 Proof. exact history_no_panic. Qed.
 Print Assumptions C19_no_panic.
 
-(* every Adjust of every admissible history: finite frequency; and when less
-   than 2^32 s have passed since the previous update (p_t = its reading,
-   C19_prev_time): duration >= 1 s, at most the elapsed time rounded up to whole
-   seconds, and |offset| <= 500 ppm of the duration (in integer nanoseconds) *)
+(* every Adjust of every admissible history, with g = time since the previous
+   update (p_t = its reading, C19_prev_time): finite frequency; for g < 2^32 s
+   duration >= 1 s, at most g rounded up to whole seconds, |offset| <= 500 ppm of
+   the duration (exact integer nanoseconds); for every g up to the wrap
+   (9223372036 s) duration >= 1 s, at most g rounded up plus 1024 ns, |offset| <=
+   500 ppm of the whole seconds plus 1 ns *)
 Theorem C19_adjust_sane : forall us u,
-  nondecreasing (us ++ [u]) -> Forall upd_ok (us ++ [u]) ->
+  epoch_monotone (us ++ [u]) -> Forall upd_ok (us ++ [u]) ->
   forall o d f, In (EAdjust o d f) (events (pll_do (pll_final pll_init us) u)) ->
   let s := pll_final pll_init us in
-  fis_finite f = true /\ 0 <= u_now u - p_t s /\
-  (u_now u - p_t s < max_gap_ns ->
-     sec_ns <= d /\ d <= sec_ns * ceil_div (u_now u - p_t s) sec_ns /\ 2000 * Z.abs o <= d).
+  let g := u_now u - p_t s in
+  fis_finite f = true /\ 0 <= g /\
+  (g < max_gap_ns -> sec_ns <= d /\ d <= sec_ns * ceil_div g sec_ns /\ 2000 * Z.abs o <= d) /\
+  (g <= wrap_gap_ns ->
+     sec_ns <= d /\ d <= sec_ns * ceil_div g sec_ns + 1024 /\ Z.abs o <= 500000 * ceil_div g sec_ns + 1).
 Proof. exact history_adjust_sane. Qed.
 Print Assumptions C19_adjust_sane.
 
-Theorem C19_prev_time : forall us, us <> [] -> nondecreasing us -> Forall upd_ok us ->
-  p_t (pll_final pll_init us) = last_now 0 us.
+(* the full clause "never a negative or zero duration" is false of the code:
+   admissible history (readings 0 s, 3 s, 10 s, then 9223372047 s; weight 10,
+   offset 1000 ns), the Adjust of the last update has duration MinInt64 *)
+Theorem C19_duration_positive_refuted :
+  exists us u o d f, epoch_monotone (us ++ [u]) /\ Forall upd_ok (us ++ [u]) /\
+    In (EAdjust o d f) (events (pll_do (pll_final pll_init us) u)) /\ d <= 0.
+Proof. exact duration_positive_refuted. Qed.
+Print Assumptions C19_duration_positive_refuted.
+
+Theorem C19_prev_time : forall us, us <> [] -> epoch_monotone us -> Forall upd_ok us ->
+  forall d, p_t (pll_final pll_init us) = u_now (last_upd d us) /\
+            p_epoch (pll_final pll_init us) = u_epoch (last_upd d us).
 Proof. exact history_prev_time. Qed.
 Print Assumptions C19_prev_time.
 
@@ -127,7 +145,7 @@ Print Assumptions C19_awaiting_pll_no_call.
 (* once tracking, in every admissible history: no call at an unchanged
    reading, exactly one Adjust at a later reading *)
 Theorem C19_tracking_calls : forall us u,
-  nondecreasing (us ++ [u]) -> Forall upd_ok (us ++ [u]) ->
+  epoch_monotone (us ++ [u]) -> Forall upd_ok (us ++ [u]) ->
   let s := pll_final pll_init us in
   p_epoch s = u_epoch u -> p_mode s = 3 ->
   (u_now u = p_t s -> events (pll_do s u) = []) /\
@@ -145,8 +163,8 @@ Theorem C19_slew_bound_float_partial : forall d p n,
 Proof. exact clamp_float_bound. Qed.
 Print Assumptions C19_slew_bound_float_partial.
 
-(* the hypotheses are satisfiable: a history that steps once, then slews *)
+(* the hypotheses are satisfiable: a history that steps once BACKWARDS (new epoch, earlier reading), then slews *)
 Example C19_hypotheses_satisfiable :
-  nondecreasing example_history /\ Forall upd_ok example_history /\
+  epoch_monotone example_history /\ gaps_below_wrap example_history /\ Forall upd_ok example_history /\
   map (fun p => map shape (snd p)) (pll_run pll_init example_history) = [[]; [1]; []; []; []; [2]].
 Proof. exact hypotheses_satisfiable. Qed.
